@@ -332,8 +332,7 @@ Proof.
   repeat (first [apply Hfin | apply IH | per_step]).
 Qed.
 
-(* the reference framings are persistent as well: the reference reading is well defined *)
-Lemma memcached_ideal_persistent udp fuel : persistent (memcached_prog true udp fuel).
+Lemma memcached_persistent udp fuel : persistent (memcached_prog udp fuel).
 Proof. induction fuel as [|f IH]; cbn [memcached_prog]; repeat (first [exact IH | per_step]). Qed.
 
 Lemma http_headers_persistent fuel : forall host cl k,
@@ -343,24 +342,24 @@ Proof.
   repeat (first [apply Hk | apply IH; exact Hk | per_step]).
 Qed.
 
-Lemma http_discard_ideal_persistent fuel : forall rem k,
-  persistent k -> persistent (http_discard false fuel rem k).
+Lemma http_discard_persistent fuel : forall rem k,
+  persistent k -> persistent (http_discard fuel rem k).
 Proof.
   induction fuel as [|f IH]; intros rem k Hk; cbn [http_discard]; [constructor|].
   destruct rem; [exact Hk|]. constructor. intros b. destruct b; [exact Hk|apply IH; exact Hk].
 Qed.
 
-Lemma http_ideal_persistent cfg fuel : persistent (http_prog cfg MODE_REF fuel).
+Lemma http_persistent cfg fuel : persistent (http_prog cfg false fuel).
 Proof.
-  unfold MODE_REF. induction fuel as [|f IH]; cbn [http_prog m_fresh m_short]; [constructor|].
+  induction fuel as [|f IH]; cbn [http_prog]; [constructor|].
   constructor. intros res. destruct (tp_line res) as [line|]; [|constructor].
   destruct (cut SP line) as [m [rest|]]; [|constructor].
   destruct (cut SP rest) as [u [p|]]; [|constructor].
   destruct (negb (request_line_ok m u p)); [constructor|].
   apply http_headers_persistent. intros h.
-  assert (Hagain : persistent (if h_loop cfg then http_prog cfg (mkMode false false) f else PDone 0))
+  assert (Hagain : persistent (if h_loop cfg then http_prog cfg false f else PDone 0))
     by (destruct (h_loop cfg); [exact IH|constructor]).
-  repeat (first [exact Hagain | apply http_discard_ideal_persistent | per_step]).
+  repeat (first [exact Hagain | apply http_discard_persistent | per_step]).
 Qed.
 
 (* ---- per service: the code's events are the reference reading of concat segs ---- *)
@@ -373,35 +372,48 @@ Proof. unfold run_impl, expected. apply persistent_obs. apply smtp_persistent. Q
 Lemma redis_run c : run_impl SVC_REDIS c = expected SVC_REDIS (concat c).
 Proof. unfold run_impl, expected. apply persistent_obs. apply redis_persistent. Qed.
 
-(* one request per connection, body read to its end (eos, ethereum): the only fresh reader is
-   the first one, created before anything was buffered *)
-Lemma http_single_readall_is_ideal e fuel :
-  http_prog (mkHttp false BReadAll e) MODE_CODE (S fuel) = PNewReader (http_prog (mkHttp false BReadAll e) MODE_REF (S fuel)).
+Lemma memcached_run c : run_impl SVC_MEMCACHED c = expected SVC_MEMCACHED (concat c).
+Proof. unfold run_impl, expected. apply persistent_obs. apply memcached_persistent. Qed.
+
+(* http: one reader per connection, exact payload *)
+Lemma http_run c : run_impl SVC_HTTP c = expected SVC_HTTP (concat c).
+Proof. unfold run_impl, expected. apply persistent_obs. apply http_persistent. Qed.
+
+(* one request per connection (docker, elasticsearch, eos, ethereum): the only reader is
+   created before anything was buffered *)
+Lemma http_single_is_persistent_tail b e fuel :
+  http_prog (mkHttp false b e) true (S fuel) = PNewReader (http_prog (mkHttp false b e) false (S fuel)).
 Proof. reflexivity. Qed.
 
-Lemma http_single_readall_run e fuel c :
-  seg_obs (http_prog (mkHttp false BReadAll e) MODE_CODE fuel) c =
-  str_obs (http_prog (mkHttp false BReadAll e) MODE_REF fuel) (concat c).
+Lemma http_single_run b e fuel c :
+  seg_obs (http_prog (mkHttp false b e) true fuel) c =
+  str_obs (http_prog (mkHttp false b e) false fuel) (concat c).
 Proof.
-  destruct fuel as [|f]; [reflexivity|]. rewrite http_single_readall_is_ideal.
-  pose proof (persistent_obs _ c (http_ideal_persistent (mkHttp false BReadAll e) (S f))) as H.
+  destruct fuel as [|f]; [reflexivity|]. rewrite http_single_is_persistent_tail.
+  pose proof (persistent_obs _ c (http_persistent (mkHttp false b e) (S f))) as H.
   unfold seg_obs in *. cbn [run_seg]. unfold new_reader in *. cbn [rbuf rsrc] in *.
-  destruct (run_seg (http_prog (mkHttp false BReadAll e) MODE_REF (S f)) (mkRd [] c)) as [[es cd] d].
+  destruct (run_seg (http_prog (mkHttp false b e) false (S f)) (mkRd [] c)) as [[es cd] d].
   exact H.
 Qed.
 
+Lemma docker_run c : run_impl SVC_DOCKER c = expected SVC_DOCKER (concat c).
+Proof. unfold run_impl, expected. apply http_single_run. Qed.
+
+Lemma elastic_run c : run_impl SVC_ELASTIC c = expected SVC_ELASTIC (concat c).
+Proof. unfold run_impl, expected. apply http_single_run. Qed.
+
 Lemma eos_run c : run_impl SVC_EOS c = expected SVC_EOS (concat c).
-Proof. unfold run_impl, expected. apply http_single_readall_run. Qed.
+Proof. unfold run_impl, expected. apply http_single_run. Qed.
 
 Lemma ethereum_run c : run_impl SVC_ETHEREUM c = expected SVC_ETHEREUM (concat c).
-Proof. unfold run_impl, expected. apply http_single_readall_run. Qed.
+Proof. unfold run_impl, expected. apply http_single_run. Qed.
 
 (* ---- datagram services: the first Read sees the whole datagram (up to the buffer) ---- *)
 Lemma first_read_of_datagram n d k :
-  n <= BUFSZ -> (forall b, persistent (k b)) ->
+  (forall b, persistent (k b)) ->
   seg_obs (PRead n k) [d] = str_obs (PTake n k) d.
 Proof.
-  intros Hn Hk. unfold seg_obs, str_obs. cbn [run_seg run_str].
+  intros Hk. unfold seg_obs, str_obs. cbn [run_seg run_str].
   pose proof (r_read_inv n (new_reader [d])) as Hinv.
   assert (Hb : fst (r_read n (new_reader [d])) = firstn n d).
   { unfold r_read, new_reader. cbn [rbuf rsrc]. destruct (BUFSZ <=? n) eqn:E.
@@ -441,19 +453,34 @@ Lemma tftp_datagram d : run_impl SVC_TFTP [d] = expected SVC_TFTP d.
 Proof.
   unfold run_impl, expected. change (impl_prog SVC_TFTP (fuel_for (concat [d]))) with (tftp_prog false).
   change (spec_prog SVC_TFTP (fuel_for d)) with (tftp_prog true). unfold tftp_prog.
-  apply first_read_of_datagram; [unfold BUFSZ; lia|]. intros b. apply tftp_tail_persistent.
+  apply first_read_of_datagram. intros b. apply tftp_tail_persistent.
 Qed.
 
 Lemma cs_datagram d : run_impl SVC_CS [d] = expected SVC_CS d.
 Proof.
   unfold run_impl, expected. change (impl_prog SVC_CS (fuel_for (concat [d]))) with (cs_prog false).
   change (spec_prog SVC_CS (fuel_for d)) with (cs_prog true). unfold cs_prog.
-  apply first_read_of_datagram; [unfold BUFSZ; lia|]. intros b. repeat per_step.
+  apply first_read_of_datagram. intros b. repeat per_step.
 Qed.
 
-(* dns behind the server's timeout wrapper: the type test fails, nothing is ever reported *)
-Lemma dns_wrapped_silent c : run_impl SVC_DNS c = ([], 0%N).
-Proof. reflexivity. Qed.
+Lemma memcached_udp_datagram d : run_impl SVC_MEMCACHED_UDP [d] = expected SVC_MEMCACHED_UDP d.
+Proof.
+  unfold run_impl, expected.
+  change (impl_prog SVC_MEMCACHED_UDP (fuel_for (concat [d]))) with (memcached_udp_prog false (fuel_for (concat [d]))).
+  change (spec_prog SVC_MEMCACHED_UDP (fuel_for d)) with (memcached_udp_prog true (fuel_for d)).
+  cbn [concat]. rewrite app_nil_r. unfold memcached_udp_prog.
+  apply first_read_of_datagram. intros b. apply memcached_persistent.
+Qed.
+
+Lemma dns_tail_persistent b : persistent (dns_event b).
+Proof. unfold dns_event. repeat per_step. Qed.
+
+Lemma dns_datagram d : run_impl SVC_DNS [d] = expected SVC_DNS d.
+Proof.
+  unfold run_impl, expected. change (impl_prog SVC_DNS (fuel_for (concat [d]))) with (dns_prog false).
+  change (spec_prog SVC_DNS (fuel_for d)) with (dns_prog true). unfold dns_prog.
+  apply first_read_of_datagram. exact dns_tail_persistent.
+Qed.
 
 (* ---- ftp, declaratively: one event per complete line, in order, up to QUIT ---- *)
 Fixpoint lines_f (fuel : nat) (s : bytes) : list bytes :=
@@ -515,45 +542,13 @@ Proof.
 Qed.
 
 (* ------------------------------------------------------------------ *)
-(* the property at full strength, and the witnesses of its failures    *)
+(* the property at full strength                                       *)
 (* ------------------------------------------------------------------ *)
+(* stream services: every segmentation of every stream *)
 Definition C04_full (svc : N) : Prop := forall segs, run_impl svc segs = expected svc (concat segs).
+(* datagram services: the connection IS one datagram (listener.DummyUDPConn) *)
+Definition C04_full_datagram (svc : N) : Prop := forall d, run_impl svc [d] = expected svc d.
 
 Lemma persistent_reads_the_stream p segs :
   persistent p -> seg_obs p segs = str_obs p (concat segs) /\ seg_dropped p segs = [].
 Proof. intros H. split; [exact (persistent_obs p segs H)|exact (persistent_nothing_dropped p segs H)]. Qed.
-
-Definition W_MC : bytes := [115;101;116;32;107;32;48;32;48;32;51;13;10;97;98;99;13;10;103;101;116;32;107;13;10]%N.
-Definition W_GET_A : bytes := [71;69;84;32;47;97;32;72;84;84;80;47;49;46;49;13;10;72;111;115;116;58;32;104;13;10;13;10]%N.
-Definition W_GET_B : bytes := [71;69;84;32;47;98;32;72;84;84;80;47;49;46;49;13;10;72;111;115;116;58;32;104;13;10;13;10]%N.
-Definition W_POST_HEAD : bytes := [80;79;83;84;32;47;112;32;72;84;84;80;47;49;46;49;13;10;72;111;115;116;58;32;104;13;10;67;111;110;116;101;110;116;45;76;101;110;103;116;104;58;32;54;13;10;13;10]%N.
-Definition W_DNS : bytes := [18;52;1;0;0;1;0;0;0;0;0;0;1;120;0;0;1;0;1]%N.
-
-Lemma memcached_storage_refuted :
-  exists s1 s2, concat s1 = concat s2 /\ run_impl SVC_MEMCACHED s1 <> run_impl SVC_MEMCACHED s2 /\
-                run_impl SVC_MEMCACHED s1 <> expected SVC_MEMCACHED (concat s1) /\
-                run_impl SVC_MEMCACHED s2 <> expected SVC_MEMCACHED (concat s2).
-Proof.
-  exists [W_MC], [firstn 16 W_MC; skipn 16 W_MC].
-  split; [reflexivity|]. repeat split; vm_compute; discriminate.
-Qed.
-
-Lemma http_pipelined_refuted :
-  exists s1 s2, concat s1 = concat s2 /\
-    length (fst (run_impl SVC_HTTP s1)) = 1 /\ length (fst (run_impl SVC_HTTP s2)) = 2 /\
-    length (fst (expected SVC_HTTP (concat s1))) = 2 /\ seg_dropped (impl_prog SVC_HTTP (fuel_for (concat s1))) s1 = W_GET_B.
-Proof.
-  exists [W_GET_A ++ W_GET_B], [W_GET_A; W_GET_B]. repeat split; vm_compute; reflexivity.
-Qed.
-
-Lemma http_body_refuted :
-  exists s1 s2, concat s1 = concat s2 /\ run_impl SVC_HTTP s1 <> run_impl SVC_HTTP s2 /\
-                run_impl SVC_HTTP s1 = expected SVC_HTTP (concat s1).
-Proof.
-  exists [W_POST_HEAD ++ [97;98;99;100;101;102]%N], [W_POST_HEAD ++ [97;98;99]%N; [100;101;102]%N].
-  split; [vm_compute; reflexivity|]. split; [vm_compute; discriminate|vm_compute; reflexivity].
-Qed.
-
-Lemma dns_refuted :
-  run_impl SVC_DNS [W_DNS] <> expected SVC_DNS W_DNS /\ run_impl SVC_DNS_BARE [W_DNS] = expected SVC_DNS W_DNS.
-Proof. split; [vm_compute; discriminate|vm_compute; reflexivity]. Qed.
